@@ -7,6 +7,7 @@ equations returns the same `U`, `U†` and `H̃`.
 -/
 import PymaVerif.Proofs.MainUnique
 import PymaVerif.Proofs.Witness
+import PymaVerif.Proofs.LevelsThm
 
 namespace Pyma
 namespace Props
@@ -96,6 +97,20 @@ theorem C03_computed_meets_conditions (h : p.Accepted) (h2 : (2 : K) ≠ 0) :
 
 example : ∀ m (a b : Fin wd.d), wd.keptE a.val b.val = true → coeff m (wd.sr "U" - wd.sr "U†") a b = 0 :=
   fun m a b hk => C03_gauge wd_accepted (by norm_num) m a b hk
+
+/-- **C03** uniqueness for every well-formed input with the list form (or the absence) of `fully_diagonalize` — no condition on the masks, which the model of
+the code constructs — and for masks of the caller that pass the two checks of `block_diagonalize` -/
+theorem C03_unique_every_list_form_problem (h : p.InputOK) (h2 : (2 : K) ≠ 0) (U₂ : Sr (Fin p.nparams) K p.d) (h0 : coeff 0 U₂ = 1)
+    (hunit : star U₂ * U₂ = 1)
+    (hgauge : ∀ m (a b : Fin p.d), p.keptE a.val b.val = true → coeff m (U₂ - star U₂) a b = 0)
+    (helim : ∀ m (a b : Fin p.d), p.keptE a.val b.val = false → coeff m (star U₂ * p.sr "H" * U₂) a b = 0) : U₂ = p.sr "U" :=
+  C03_unique h.accepted h2 U₂ h0 hunit hgauge helim
+
+theorem C03_unique_every_masked_problem (h : p.MasksOK) (h2 : (2 : K) ≠ 0) (U₂ : Sr (Fin p.nparams) K p.d) (h0 : coeff 0 U₂ = 1)
+    (hunit : star U₂ * U₂ = 1)
+    (hgauge : ∀ m (a b : Fin p.d), p.keptE a.val b.val = true → coeff m (U₂ - star U₂) a b = 0)
+    (helim : ∀ m (a b : Fin p.d), p.keptE a.val b.val = false → coeff m (star U₂ * p.sr "H" * U₂) a b = 0) : U₂ = p.sr "U" :=
+  C03_unique h.accepted h2 U₂ h0 hunit hgauge helim
 
 end Props
 end Pyma
